@@ -236,8 +236,10 @@ def check_url_file_relative_sim(chk):
     func = mod.func('url_file_relative', 'C17.U')
     it = Interp(mod, 'C17.U')
     it.repo = chk.repo
-    files = ['http://h.example/a/b/main.bare', 'https://h.example/main.bare', 'dir/sub/main.bare', '/abs/dir/main.bare', 'main.bare', 'file:///x/y.bare', 'a/b.c/d']
-    urls = ['http://o.example/x.bare', 'https://o.example/p/x.bare?q=1', '/abs/x.bare', 'x.bare', 'sub/x.bare', '../x.bare', './x.bare', 'lib/../x.bare', 'x y.bare', 'mailto:x']
+    files = ['http://h.example/a/b/main.bare', 'https://h.example/main.bare', 'dir/sub/main.bare', '/abs/dir/main.bare', 'main.bare', 'file:///x/y.bare', 'a/b.c/d',
+             'vfs://root/app/main.bare', 'mem:app/main.bare']
+    urls = ['http://o.example/x.bare', 'https://o.example/p/x.bare?q=1', '/abs/x.bare', 'x.bare', 'sub/x.bare', '../x.bare', './x.bare', 'lib/../x.bare', 'x y.bare', 'mailto:x',
+            'sub\\util.bare', 'v\\1.bare', 'a\\g<0>.bare', 'x$1&.bare', 'q?a=b#c/d']
     is_url = _re.compile(r'^[a-z]+:')
     n = 0
     for f in files:
